@@ -5,7 +5,7 @@ import re
 import bcrun
 import lib
 
-RULE = ("(a)+(b) state space = 39 opcode tables x 256 opcode numbers, 14 invariants of OpTables.tla per state (bijection, frozen decoder sets = published has* lists, categorised opcodes "
+RULE = ("(a)+(b) state space = 39 opcode tables x 256 opcode numbers, 16 invariants of OpTables.tla per state (bijection, frozen decoder sets = published has* lists, categorised opcodes "
         "defined and operand-taking unless CPython has the same gap, jrel/jabs disjoint, EXTENDED_ARG and shift, and for the nine installed "
         "interpreters equality of names, HAVE_ARGUMENT/hasarg and the seven category sets with the live opcode module); (c) the recorded "
         "derivation of every table (init/def/rm/finalize events, hook H2) replayed on an abstract table by OpTablesTrace.tla; (d) every code "
@@ -66,7 +66,7 @@ def run(tier, rep):
         t = x.get(key, {})
         detail = {"invariant": inv, "table": key, "opcode": op, "xdis_name": t.get("opname", [""] * 256)[op] if op >= 0 else None,
                   "cpython_name": cpy.get(key, {}).get("opname", [None] * 256)[op] if key in cpy and op >= 0 and op < len(cpy[key]["opname"]) else None}
-        whole = inv in ("SameHaveArg", "SameExt", "ExtendedArgRight")
+        whole = inv in ("SameHaveArg", "SameExt", "ExtendedArgRight", "LookupsAgree")
         sig = "C09.%s:%s" % (inv, key) if whole else "C09.%s:%s:%d" % (inv, key, op)
         if whole and any(r_["signature"] == sig for r_ in rep.rejections):
             continue
